@@ -126,10 +126,26 @@ func Explore(sc *Scenario) (Stats, *Failure, error) {
 		return st, nil, fmt.Errorf("scenario %s is not deterministic under a fixed schedule (final %x vs %x, outcome %q vs %q)", sc.Name, o1.Final, o2.Final, out1, out2)
 	}
 	visited := map[uint64]int{}
-	stack := [][]int{nil}
+	// A stack entry is "the first i choices of base, then alt": prefixes are materialised when
+	// popped, so an execution with many choice points (one that runs into the step horizon has
+	// 10^5 of them) costs one shared slice, not a copy per alternative.
+	type frame struct {
+		base   []int
+		i, alt int
+	}
+	stack := []frame{{}}
+	first := true
 	for len(stack) > 0 {
-		prefix := stack[len(stack)-1]
+		fr := stack[len(stack)-1]
 		stack = stack[:len(stack)-1]
+		var prefix []int
+		if first {
+			first = false
+		} else {
+			prefix = make([]int, fr.i+1)
+			copy(prefix, fr.base[:fr.i])
+			prefix[fr.i] = fr.alt
+		}
 		if sc.MaxExec > 0 && st.Executions+st.Cut >= sc.MaxExec {
 			st.Exhaustive = false
 			break
@@ -195,6 +211,10 @@ func Explore(sc *Scenario) (Stats, *Failure, error) {
 		}
 		// push the alternatives of every point beyond the prefix (deepest last = DFS)
 		pre := 0
+		chosen := make([]int, len(out.Points))
+		for i, p := range out.Points {
+			chosen[i] = p.Chosen
+		}
 		for i, p := range out.Points {
 			if i >= len(prefix) {
 				cost := pre
@@ -203,12 +223,7 @@ func Explore(sc *Scenario) (Stats, *Failure, error) {
 				}
 				if sc.Bound < 0 || cost <= sc.Bound {
 					for alt := p.N - 1; alt >= 1; alt-- {
-						np := make([]int, i+1)
-						for j := 0; j < i; j++ {
-							np[j] = out.Points[j].Chosen
-						}
-						np[i] = alt
-						stack = append(stack, np)
+						stack = append(stack, frame{chosen, i, alt})
 					}
 				}
 			}
